@@ -229,6 +229,9 @@ var retryUndecided = true
 // back end) is retried once with three times the time limit before it is reported: an obligation that is decided in a
 // fraction of a second on an idle machine must not become an alarm because the machine was busy.
 func solveOne(ctxText string, o *Oblig, timeoutMs int, sem chan struct{}) {
+	if noRetry[o.Name] && timeoutMs > 5000 {
+		timeoutMs = 5000 // a listed known finding: expected to fail, not worth the full time limit
+	}
 	solveOnce(ctxText, o, timeoutMs, sem)
 	if retryUndecided && !o.IsCover && !noRetry[o.Name] && (exemptCheck == nil || exemptCheck(o.Name) == "") && o.Result != "unsat" && o.Result != "sat" && o.Result != "disagree" && !strings.HasPrefix(o.Result, "error") {
 		if os.Getenv("GOVC_TRACE") != "" {
